@@ -138,7 +138,7 @@ def obligations(tier, seed):
     sks = list(families.c16_skeletons(tier))
     pick = sks if not quick else rnd.sample(sks, 250)
     for sk in pick:
-        for rule in CONSUMERS[:5]:
+        for rule in CONSUMERS:
             obs.append(Obligation("%s/%s" % (rule.split(".")[-1], sk.sid), pool.ob_tv,
                                   dict(skeleton=sk.to_json(), transform=rule, budget_s=40.0, max_cex=2),
                                   hard_timeout=90, sample={"program": sk.text[-400:], "transform": rule}))
